@@ -17,6 +17,7 @@ pub mod c09;
 pub mod c09_header;
 pub mod c14;
 pub mod c05;
+pub mod c05_reenc;
 pub mod c13;
 pub mod c18;
 pub mod c10;
